@@ -503,7 +503,7 @@ type result struct {
 	}
 }
 
-const c05Keys = `^(replicas-apply-different-entries|replicas-do-not-converge)$`
+const c05Keys = `^(replicas-apply-different-entries|replicas-do-not-converge|replica-ends-without-what-was-applied)$`
 
 func main() {
 	thorough := os.Getenv("VERIF_TIER") == "thorough"
